@@ -8,6 +8,7 @@ package main
 
 import (
 	"bytes"
+	"encoding/binary"
 	"fmt"
 
 	"github.com/nspcc-dev/neo-go/pkg/core"
@@ -112,6 +113,43 @@ func (v *env) replicaCheck() []string {
 	var div []string
 	if bcB.BlockHeight() != v.bc.BlockHeight() {
 		return []string{fmt.Sprintf("replica height %d, live %d", bcB.BlockHeight(), v.bc.BlockHeight())}
+	}
+	// contract storage: the live DAO, the node restarted from the same store, and what the state root commits to
+	// (the MPT) must hold the same bytes under the same keys
+	dump := func(bc *core.Blockchain) map[string]string {
+		m := map[string]string{}
+		for i := 0; i < numContracts; i++ {
+			bc.SeekStorage(v.ids[i], nil, func(k, val []byte) bool {
+				m[fmt.Sprintf("%d:%x", i, k)] = fmt.Sprintf("%x", val)
+				return true
+			})
+		}
+		return m
+	}
+	live, restarted := dump(v.bc), dump(bcB)
+	for k, a := range live {
+		if b, ok := restarted[k]; !ok || a != b {
+			div = append(div, fmt.Sprintf("storage %s: live %s, restarted %s", k, a, b))
+		}
+	}
+	for k := range restarted {
+		if _, ok := live[k]; !ok {
+			div = append(div, fmt.Sprintf("storage %s: only after restart", k))
+		}
+	}
+	sm := v.bc.GetStateModule()
+	root := sm.CurrentLocalStateRoot()
+	for i := 0; i < numContracts; i++ {
+		v.bc.SeekStorage(v.ids[i], nil, func(k, val []byte) bool {
+			key := make([]byte, 4, 4+len(k))
+			binary.LittleEndian.PutUint32(key, uint32(v.ids[i]))
+			key = append(key, k...)
+			mv, err := sm.GetState(root, key)
+			if err != nil || !bytes.Equal(mv, val) {
+				div = append(div, fmt.Sprintf("storage %d:%x: DAO %x, state root commits to %x (%v)", i, k, val, mv, err))
+			}
+			return true
+		})
 	}
 	for _, p := range v.probes() {
 		a, b := runProbe(v.e, v.tb, p), runProbe(eB, tb, p)
